@@ -248,8 +248,50 @@ def r2_clear_complete(ctx, sym):
                                   "submission, so leftover pool overrides are applied to its feedback"}.get(
                       attr, "a value stored in report.%s by one grading is seen by the next" % attr),
                   construct='def clear(self): ... (no self.%s)' % attr)
-    ctx.check(not any(isinstance(n, (ast.If, ast.Return, ast.Try)) for n in body_walk(clear)), 'R2',
-              'Report.clear:unconditional', mod, clear, "clear() has conditional paths", "some state survives clear()")
+    # the same, behaviourally: __init__ executed abstractly gives the pristine state; every attribute is then dirtied,
+    # clear() is executed abstractly, and the state must read as pristine again
+    from .. import symexec
+    from ..fdeval import Obj, Raised, Inconclusive
+    ctor_calls = {}
+
+    def fresh_fd():
+        rec = symexec.Recorder()
+        fd = symexec.new_fd(sym, mod, calls={
+            'Formatter': lambda *a, **k: Obj('Formatter()'), 'set': lambda *a: set(*a),
+            'log.debug': lambda *a, **k: None, 'log.info': lambda *a, **k: None})
+        return fd
+    me = symexec.self_obj(mod, 'Report')
+    try:
+        fresh_fd().call_function(init, [], bound_self=me)
+        pristine = {k: v for k, v in me.attrs.items() if not k.startswith('__') and not k.startswith('method:')}
+
+        def shape(v):
+            if isinstance(v, (list, dict, set, tuple)):
+                return (type(v).__name__, len(v))
+            if isinstance(v, Obj):
+                return ('obj', v._name)
+            return ('value', v)
+        want = {k: shape(v) for k, v in pristine.items()}
+        for k, v in list(pristine.items()):
+            if isinstance(v, list):
+                v.append('leftover')
+            elif isinstance(v, dict):
+                v['leftover'] = 'leftover'
+            elif isinstance(v, set):
+                v.add('leftover')
+            else:
+                me.attrs[k] = Obj('leftover value of ' + k)
+        symexec.method(me, 'clear_overridden_feedback', lambda: me.attrs.__setitem__('overridden_feedbacks', set()))
+        fresh_fd().call_function(clear, [], bound_self=me)
+        for k, w in sorted(want.items()):
+            if k in documented:
+                continue
+            got = shape(me.attrs.get(k))
+            ctx.check(got == w, 'R2', 'Report.clear:restores:' + k, mod, clear,
+                      "after clear() report.%s is %r, a new Report has %r" % (k, got, w),
+                      "a value stored in report.%s by one grading is seen by the next" % k)
+    except (Raised, Inconclusive) as e:
+        ctx.info("Report.__init__/clear outside the decidable fragment (%s): the effect-set rule above stands alone" % e)
 
 
 def r3_lazy_tool_reset(ctx, sym):
